@@ -128,6 +128,31 @@ CHECKS = {
         "record exactly the span of the requests below it; each sub-request timing exactly its own request; clients never influence each other.",
         "Trusted: mc/vloop.py (virtual loop), mc/fakees.py (simulated node, 70 lines). Real sockets / aiohttp are replaced by the simulated node.",
     ),
+    "C04": (
+        "exploration",
+        "bounded-exhaustive enumeration of load-generator configurations executed by the real worker stack on a virtual asyncio loop "
+        "against a simulated node; samples compared with the node's request log and the real schedule's yielded tuples; callback-order "
+        "choice points explored for two-client configurations",
+        "DESIGN.md §4 C04",
+        "clients x target throughput/interval x service-time words (incl. far slower than the interval) x weight/unit x error patterns "
+        "(API error, unsuccessful result, connection timeout; on-error=continue) x client-side overhead x wire requests per invocation, "
+        "4 invocations per client through AsyncIoAdapter.run / ScheduleHandle / AsyncExecutor / execute_single / registered runner / Rally "
+        "async client: one sample per invocation with its client, task, sample type and issue time; service time = first send..last "
+        "receive; processing >= service >= 0 and exact; throttled: not issued before the scheduled time, latency = response - scheduled "
+        "time; unthrottled: latency = service time.",
+        "Trusted: mc/vloop.py, mc/fakees.py, mc/loadgen.py (harness, 200 lines). Exact equalities use binary-fraction times.",
+    ),
+    "C05": (
+        "exploration",
+        "bounded-exhaustive enumeration of loop-control / scheduler / throughput / ramp-up / service-time parameters executed by the real "
+        "worker stack on a virtual asyncio loop; yielded schedule tuples and samples compared with the task specification",
+        "DESIGN.md §4 C05",
+        "Iteration-based (warm-up x measurement iterations), time-based (warm-up x time period, ramp-up), source-bounded and "
+        "self-completing-runner tasks x clients {1,2,4} x {unthrottled, deterministic, seeded poisson} x targets (ops/s, docs/s, interval, "
+        "unit mismatch) x 4 service-time words: exact request counts and warm-up flags, period end (one straddler per client), progress "
+        "monotone in [0,1] ending at 1, sample types never regress, scheduled times monotone and weight*C/T apart, ramp-up delay.",
+        "Trusted: as C04. Poisson pacing compared with the same seeded source (single client) or for monotonicity.",
+    ),
 }
 
 NOT_YET = {}
